@@ -489,6 +489,37 @@ def prelude(rep, cli=False, extra_modules=()):
     # model drivers are built on demand by vlib.model (one executable per op)
 
 
+def huge_token_probe(rep, which=("lex", "parse", "diag")):
+    """Tokens, comments and expressions whose span is about 2^25 bytes long (where the compact span encoding
+    switches representation): they must lex, parse, evaluate and be reported like short ones.
+    The 32 MiB sources are built inside the harness (`evalbig` / `diagbig`)."""
+    B = 1 << 25
+    lens = [B - 2, B] if rep.tier == "quick" else [B - 4, B - 3, B - 2, B - 1, B, B + 1, B + 5, (1 << 26) - 2, 1 << 26]
+    tmpl = []
+    if "lex" in which:
+        tmpl += [('"@"', "ok"), ("/*@*/ 1", "ok"), ("|||\n @\n|||", "ok"), ("@ + 1", "err"), ('"@', "err"), ("/*@", "err")]
+    if "parse" in which:
+        tmpl += [('"@" + "b"', "ok"), ('local x = "@"; std.length(x)', "ok"), ('["@"][0]', "ok"), ('{ a: "@" }.a', "ok"),
+                 ('std.length("@" + "b")', "ok"), ('("@")', "ok")]
+    if "diag" in which:
+        tmpl += [('["@"][1]', "err"), ('{ a: "@" }.b', "err"), ('"@" - 1', "err"), ('error "@"', "err"), ('"@', "err"), ("/*@", "err"),
+                 ('local x = "@"; y', "err")]
+    lines, meta = [], []
+    for t, want in tmpl:
+        for L in lens:
+            op = "diagbig" if want == "err" and "diag" in which else "evalbig"
+            lines.append("%s %s %s %d" % (op, hx(t), hx("a"), L))
+            meta.append((t, L, want))
+    outs = impl(lines, timeout=1500, mem_limit=8 * 1024 ** 3)
+    for line, (t, L, want), a in zip(lines, meta, outs):
+        rep.bump("huge-token")
+        rep.count("huge:" + line, True)
+        if a.startswith("panic") or a.startswith("crash"):
+            rep.violation("huge:" + line, "a %d-byte token in `%s` is not handled: %s" % (L, t, a[:160]), {"op": line, "impl": a[:600]})
+        elif not a.startswith(want):
+            rep.violation("huge:" + line, "a %d-byte token in `%s`: expected %s, answered %s" % (L, t, want, a[:100]), {"op": line, "impl": a[:600]})
+
+
 def compare(rep, cases, impl_out, model_out, canon=None, label="case"):
     """cases: list of dicts with 'key'; report model/impl disagreements."""
     n = 0
